@@ -61,4 +61,4 @@ package netconf
 //@   props C20
 //@   requires tc != nil
 
-//@ sweep C20: StringElementToTypedValue valueAsString pathElem2EtreePath pathElem2XPath getNamespaceFromGetSchemaResponse
+//@ sweep C20: StringElementToTypedValue valueAsString pathElem2EtreePath pathElem2XPath pathElemKeyFilters joinKeyFilters getNamespaceFromGetSchemaResponse
